@@ -182,8 +182,11 @@ class LoopsMixin:
         keys = h.keys(a)
         vals = h.vals(a)
         facts = [n >= 0,
+                 # (keys of the model's dicts are kept normalised -- True/1/1.0 collapse to the int key -- by every insertion)
                  Z.forall([j], z3.Implies(z3.And(j >= 0, j < n),
-                                           z3.And(z3.Select(keys, z3.Select(en, j)), pos(z3.Select(en, j)) == j)),
+                                           z3.And(z3.Select(keys, z3.Select(en, j)), pos(z3.Select(en, j)) == j,
+                                                  z3.Not(Z.is_b(z3.Select(en, j))),
+                                                  z3.Not(z3.And(Z.is_r(z3.Select(en, j)), z3.IsInt(Z.rv(z3.Select(en, j))))))),
                            patterns=[z3.Select(en, j)]),
                  z3.ForAll([k], z3.Implies(z3.Select(keys, k),
                                            z3.And(pos(k) >= 0, pos(k) < n, z3.Select(en, pos(k)) == k)),
